@@ -61,6 +61,10 @@ type Spec struct {
 	// which the call was reached (outermost first), so that a rule can tell two
 	// expansions of the same helper apart.
 	ClassifyCtx func(info *types.Info, call *ast.CallExpr, f *types.Func, stack []*ast.CallExpr) (string, bool)
+	// ResolveCallee, when set, is asked for the target of a call that has no static
+	// callee and is not through a local the extractor tracks itself (a function
+	// held in a struct field, say); stack as for ClassifyCtx.
+	ResolveCallee func(info *types.Info, call *ast.CallExpr, stack []*ast.CallExpr) *types.Func
 	// StrictLits makes the extraction undecided when a function literal (also
 	// under defer/go) touches the stream: its tokens would otherwise be lost.
 	StrictLits bool
@@ -106,6 +110,25 @@ type Extractor struct {
 func New(c *core.Ctx, s *Spec) *Extractor {
 	if s.MaxDepth == 0 {
 		s.MaxDepth = 4
+	}
+	predicateOf = func(info *types.Info, call *ast.CallExpr) (ast.Expr, *types.Info) {
+		f := core.CalleeFunc(info, call)
+		if f == nil || f.Pkg() == nil || !strings.HasPrefix(f.Pkg().Path(), core.Module) {
+			return nil, nil
+		}
+		sig, _ := f.Type().(*types.Signature)
+		if sig == nil || sig.Params().Len() != 0 || sig.Results().Len() != 1 {
+			return nil, nil
+		}
+		fn := c.FnOf(f)
+		if fn == nil || fn.Decl == nil || fn.Decl.Body == nil || len(fn.Decl.Body.List) != 1 {
+			return nil, nil
+		}
+		ret, ok := fn.Decl.Body.List[0].(*ast.ReturnStmt)
+		if !ok || len(ret.Results) != 1 {
+			return nil, nil
+		}
+		return ret.Results[0], fn.Pkg.TypesInfo
 	}
 	return &Extractor{C: c, S: s, binds: map[types.Object][]string{}, used: map[string]bool{}, bufLen: map[types.Object]int64{},
 		consts: map[types.Object]int64{}, known: map[types.Object]int64{}, tokOf: map[*ast.CallExpr]*node{}, inlineRes: map[*ast.CallExpr][]string{}, inlineVals: map[*ast.CallExpr]*inlineFrame{}}
@@ -306,17 +329,43 @@ func (e *Extractor) block(info *types.Info, stmts []ast.Stmt) *node {
 }
 
 func isErrIdent(info *types.Info, x ast.Expr) bool {
-	id, ok := ast.Unparen(x).(*ast.Ident)
-	if !ok {
-		return false
+	switch v := ast.Unparen(x).(type) {
+	case *ast.Ident:
+		tv := info.TypeOf(v)
+		return tv != nil && cfgq.IsErrorType(tv)
+	case *ast.SelectorExpr:
+		// the error kept in a field of a small writer/reader object (`w.err`)
+		if sel, ok := info.Selections[v]; ok && sel.Kind() == types.FieldVal {
+			if _, isId := ast.Unparen(v.X).(*ast.Ident); isId {
+				return cfgq.IsErrorType(sel.Obj().Type())
+			}
+		}
 	}
-	tv := info.TypeOf(id)
-	return tv != nil && cfgq.IsErrorType(tv)
+	return false
 }
+
+// predicateOf, set by New, returns the expression a one-line predicate helper
+// returns (`func (w *T) failed() bool { return w.err != nil }`) and the type
+// information of its package.
+var predicateOf func(info *types.Info, call *ast.CallExpr) (ast.Expr, *types.Info)
 
 // errCond classifies cond as an error test: +1 = true means error, -1 = true
 // means no error, 0 = not an error test.
 func errCond(info *types.Info, cond ast.Expr) int {
+	switch v := ast.Unparen(cond).(type) {
+	case *ast.UnaryExpr:
+		if v.Op == token.NOT {
+			return -errCond(info, v.X)
+		}
+	case *ast.CallExpr:
+		if predicateOf != nil {
+			if x, xi := predicateOf(info, v); x != nil {
+				if _, again := ast.Unparen(x).(*ast.CallExpr); !again {
+					return errCond(xi, x)
+				}
+			}
+		}
+	}
 	be, ok := ast.Unparen(cond).(*ast.BinaryExpr)
 	if !ok {
 		return 0
@@ -364,7 +413,13 @@ func (e *Extractor) errorExitCtx(info *types.Info, b *ast.BlockStmt, errCtx bool
 			return false
 		}
 		r := last.Results[len(last.Results)-1]
-		return !core.IsNil(info, r) && cfgq.IsErrorType(info.TypeOf(r))
+		if !core.IsNil(info, r) && cfgq.IsErrorType(info.TypeOf(r)) {
+			// `return err`, `return fmt.Errorf(..)`, `return errors.Trace(err)` leave with an
+			// error; `return errors.Trace(w.Write(..))` / `return w.Write(..)` returns whatever
+			// the write returned - the path goes on through that call
+			return !e.mayBeNilCall(info, r)
+		}
+		return false
 	case *ast.ExprStmt:
 		if call, ok := last.X.(*ast.CallExpr); ok {
 			return cfgq.NR(e.C.Program).Is(info, call)
@@ -453,6 +508,13 @@ func (e *Extractor) calleeOf(info *types.Info, c *ast.CallExpr) *types.Func {
 			}
 		}
 	}
+	if e.S.ResolveCallee != nil {
+		if tv, isConv := info.Types[c.Fun]; !(isConv && tv.IsType()) {
+			if _, isBuiltin := core.Callee(info, c).(*types.Builtin); !isBuiltin {
+				return e.S.ResolveCallee(info, c, e.stack)
+			}
+		}
+	}
 	return nil
 }
 
@@ -476,6 +538,16 @@ func (e *Extractor) callToken(info *types.Info, c *ast.CallExpr) *node {
 					}
 					// a function value in a local may be a bound method of the stream object
 					e.undec("%s: call through the function value `%s`, whose target is not known on this path", e.C.Pos(c.Pos()), id.Name)
+					return nil
+				}
+			}
+		}
+		if sel, ok := ast.Unparen(c.Fun).(*ast.SelectorExpr); ok && e.S.Carrier != nil {
+			if sl, ok := info.Selections[sel]; ok && sl.Kind() == types.FieldVal {
+				if _, isSig := sl.Obj().Type().Underlying().(*types.Signature); isSig {
+					// a function held in a field may be a bound method of the stream object or
+					// one of the callbacks the term is about
+					e.undec("%s: call through the function-typed field `%s`, whose target is not known", e.C.Pos(c.Pos()), sel.Sel.Name)
 					return nil
 				}
 			}
@@ -665,20 +737,139 @@ func (e *Extractor) intValue(info *types.Info, x ast.Expr) (int64, bool) {
 // return only skips the rest of the helper, which is what the else branch says.
 func earlyReturnToElse(stmts []ast.Stmt) []ast.Stmt {
 	for i, s := range stmts {
-		ifs, ok := s.(*ast.IfStmt)
-		if !ok || ifs.Else != nil || len(ifs.Body.List) == 0 || i == len(stmts)-1 {
-			continue
+		if i == len(stmts)-1 {
+			break
 		}
-		if _, isRet := ifs.Body.List[len(ifs.Body.List)-1].(*ast.ReturnStmt); !isRet {
+		ifs, ok := s.(*ast.IfStmt)
+		if !ok {
+			// a tagless switch whose clauses partly return is the same thing spelled as a chain
+			if sw, isSw := s.(*ast.SwitchStmt); isSw {
+				ifs = taglessToIf(sw)
+			}
+			if ifs == nil {
+				continue
+			}
+		}
+		if ifs.Else == nil {
+			// the plain guard clause
+			if len(ifs.Body.List) == 0 {
+				continue
+			}
+			if _, isRet := ifs.Body.List[len(ifs.Body.List)-1].(*ast.ReturnStmt); !isRet {
+				continue
+			}
+			rest := earlyReturnToElse(stmts[i+1:])
+			n := &ast.IfStmt{If: ifs.If, Init: ifs.Init, Cond: ifs.Cond, Body: ifs.Body,
+				Else: &ast.BlockStmt{Lbrace: stmts[i+1].Pos(), List: rest, Rbrace: stmts[len(stmts)-1].End()}}
+			out := append([]ast.Stmt{}, stmts[:i]...)
+			return append(out, n)
+		}
+		// an if / else-if / else chain in which some arms return and others fall out:
+		// what follows belongs to the arms that fall out
+		if !someArmReturns(ifs) {
 			continue
 		}
 		rest := earlyReturnToElse(stmts[i+1:])
-		n := &ast.IfStmt{If: ifs.If, Init: ifs.Init, Cond: ifs.Cond, Body: ifs.Body,
-			Else: &ast.BlockStmt{Lbrace: stmts[i+1].Pos(), List: rest, Rbrace: stmts[len(stmts)-1].End()}}
 		out := append([]ast.Stmt{}, stmts[:i]...)
-		return append(out, n)
+		return append(out, sinkRest(ifs, rest))
 	}
 	return stmts
+}
+
+func endsInReturn(list []ast.Stmt) bool {
+	if len(list) == 0 {
+		return false
+	}
+	_, ok := list[len(list)-1].(*ast.ReturnStmt)
+	return ok
+}
+
+func someArmReturns(ifs *ast.IfStmt) bool {
+	if endsInReturn(ifs.Body.List) {
+		return true
+	}
+	switch el := ifs.Else.(type) {
+	case *ast.BlockStmt:
+		return endsInReturn(el.List)
+	case *ast.IfStmt:
+		return someArmReturns(el)
+	}
+	return false
+}
+
+// sinkRest appends rest to every arm of the chain that does not end in a return
+// (an absent else is such an arm).
+func sinkRest(ifs *ast.IfStmt, rest []ast.Stmt) *ast.IfStmt {
+	n := &ast.IfStmt{If: ifs.If, Init: ifs.Init, Cond: ifs.Cond, Body: ifs.Body, Else: ifs.Else}
+	if !endsInReturn(ifs.Body.List) {
+		n.Body = &ast.BlockStmt{Lbrace: ifs.Body.Lbrace, List: append(append([]ast.Stmt{}, ifs.Body.List...), rest...), Rbrace: ifs.Body.Rbrace}
+	}
+	switch el := ifs.Else.(type) {
+	case nil:
+		if len(rest) > 0 {
+			n.Else = &ast.BlockStmt{Lbrace: rest[0].Pos(), List: rest, Rbrace: rest[len(rest)-1].End()}
+		}
+	case *ast.BlockStmt:
+		if !endsInReturn(el.List) {
+			n.Else = &ast.BlockStmt{Lbrace: el.Lbrace, List: append(append([]ast.Stmt{}, el.List...), rest...), Rbrace: el.Rbrace}
+		}
+	case *ast.IfStmt:
+		n.Else = sinkRest(el, rest)
+	}
+	return n
+}
+
+// taglessToIf turns `switch { case a, b: X; case c: Y; default: Z }` (no init,
+// no fallthrough, no break that leaves the switch) into the equivalent
+// if / else-if / else chain; nil when the switch is not of that form.
+func taglessToIf(sw *ast.SwitchStmt) *ast.IfStmt {
+	if sw.Tag != nil || sw.Init != nil || len(sw.Body.List) == 0 {
+		return nil
+	}
+	var def *ast.CaseClause
+	var cases []*ast.CaseClause
+	for _, cl := range sw.Body.List {
+		cc := cl.(*ast.CaseClause)
+		bad := false
+		for _, st := range cc.Body {
+			ast.Inspect(st, func(n ast.Node) bool {
+				switch v := n.(type) {
+				case *ast.BranchStmt:
+					if v.Tok == token.FALLTHROUGH || v.Tok == token.BREAK && v.Label == nil {
+						bad = true
+					}
+				case *ast.ForStmt, *ast.RangeStmt, *ast.SwitchStmt, *ast.TypeSwitchStmt, *ast.SelectStmt, *ast.FuncLit:
+					return false // a break in there does not leave this switch
+				}
+				return !bad
+			})
+		}
+		if bad {
+			return nil
+		}
+		if cc.List == nil {
+			def = cc
+		} else {
+			cases = append(cases, cc)
+		}
+	}
+	if len(cases) == 0 {
+		return nil
+	}
+	// the default clause is evaluated last wherever it is written
+	var tail ast.Stmt
+	if def != nil {
+		tail = &ast.BlockStmt{Lbrace: def.Pos(), List: def.Body, Rbrace: def.End()}
+	}
+	for i := len(cases) - 1; i >= 0; i-- {
+		cc := cases[i]
+		cond := cc.List[0]
+		for _, c := range cc.List[1:] {
+			cond = &ast.BinaryExpr{X: cond, OpPos: c.Pos(), Op: token.LOR, Y: c}
+		}
+		tail = &ast.IfStmt{If: cc.Pos(), Cond: cond, Body: &ast.BlockStmt{Lbrace: cc.Colon, List: cc.Body, Rbrace: cc.End()}, Else: tail}
+	}
+	return tail.(*ast.IfStmt)
 }
 
 // resultBinds collects the bindings of the first result of an inlined helper
@@ -1295,7 +1486,9 @@ func (e *Extractor) stmt1(info *types.Info, s ast.Stmt) *node {
 			}
 		}
 		if errCond(info, x.Cond) == 1 || ec == 1 && e.errorExit(info, x.Body) {
-			if e.errorExit(info, x.Body) {
+			if e.errorExit(info, x.Body) || errCond(info, x.Cond) == 1 && onlyBreak(x.Body) {
+				// (`if err != nil { break }`: the loop is left with the error pending - the
+				// sticky-error style, where everything that follows is guarded by it)
 				out.kids = append(out.kids, e.block(info, els))
 				return out
 			}
@@ -1372,7 +1565,13 @@ func (e *Extractor) stmt1(info *types.Info, s ast.Stmt) *node {
 			return out
 		}
 		condToks := e.exprTokens(info, x.Cond)
-		if len(condToks) > 0 {
+		consumed := false
+		for _, t := range condToks {
+			if !t.empty() {
+				consumed = true
+			}
+		}
+		if consumed {
 			e.undec("%s: stream consumed inside a loop condition", e.C.Pos(x.Pos()))
 		}
 		if x.Cond != nil && x.Post != nil {
